@@ -2,6 +2,8 @@
 
 from __future__ import annotations
 
+import json
+
 from harness.drivers import _pipeline as P
 
 HOWS = ["list", "setter", "string", "npyfile", "txtfile", "scalar"]
@@ -44,13 +46,113 @@ def run(ctx):
     # schedule / readout mode may change between the runs
     traces = P.sessions(ctx, [], ctx.pick(60, 1200), kinds=("obs", "set", "add"))
     P.validate(ctx, traces, "sessions")
+    readout_object(ctx)
     from harness import hooks
     hooks.check(ctx)
     ctx.assumptions += ["times are dyadic rationals (ticks of 1/1024 s) so the float clock arithmetic of the code is exact",
                         "buckets are observed by probe models at entry; prior contents are loaded through the public setters"]
 
 
+def _strip_ro(tr):
+    return {"events": [{k: v for k, v in ev.items() if k not in ("exc", "fresh")} for ev in tr["events"]]}
+
+
+def _corrupt_ro(tr):
+    for ev in tr["events"]:
+        if ev["out"] == "ok" and ev["after"]["live"] == 1:
+            ev["after"]["steps"] = [s + 1 for s in ev["after"]["steps"]]
+            return tr
+    return None
+
+
+def _validate_ro(ctx, traces, label):
+    stripped = [_strip_ro(t) for t in traces]
+    rejected = ctx.validate("ReadoutTrace", stripped, label=label, corrupt=_corrupt_ro)
+    for t in traces:
+        for ev in t["events"]:
+            if ev["op"] == "replace" and ev["out"] == "ok" and ev.get("fresh") is False:
+                ctx.violation("readout.replace.alias", "Readout.replace returned the object it was called on",
+                              {"kind": "readout", "history": t["case"]}, {"op": "replace"})
+    if not rejected:
+        return
+    from harness import tlc
+    idx = [k for k, _ in rejected][:60]
+    diag = tlc.diagnose("ReadoutTrace", [stripped[k] for k in idx], tag=f"C02_{label}")
+    seen = set()
+    for pos, k in enumerate(idx, start=1):
+        l, exp = diag.get(pos, (dict(rejected)[k], None))
+        evs = traces[k]["events"]
+        ev = evs[l - 1] if 1 <= l <= len(evs) else {}
+        sig = f"readout.{ev.get('op', 'incomplete')}"
+        if sig in seen:
+            continue
+        seen.add(sig)
+        ctx.violation(sig, f"Readout object before the call {exp}: {ev.get('op')}(times={ev.get('times') if ev.get('given') else None}, "
+                           f"start={ev.get('start') if ev.get('hasS') else None}, nd={ev.get('nd') if ev.get('hasN') else None}) "
+                           f"[ticks of 0.5 s] -> {ev.get('out')} {ev.get('exc', '')}; object afterwards {ev.get('after')}, "
+                           f"object it was called on {ev.get('old')}, time_step_it consistent: {ev.get('it_ok')}",
+                      {"kind": "readout", "history": traces[k]["case"]}, {"op": ev.get("op")})
+
+
+def random_ro(rng, n):
+    big = rng.random() < 0.3
+    def times():
+        m = rng.choice([0, 1, 1, 2, 3, 5])
+        if rng.random() < 0.6:   # increasing
+            t, out = rng.randint(0, 3), []
+            for _ in range(m):
+                out.append(t * (1 << 12 if big else 1))
+                t += rng.randint(0 if rng.random() < 0.2 else 1, 3)
+            return out
+        return [rng.randint(-1, 6) for _ in range(m)]
+    ops = [{"op": "construct", "given": rng.random() < 0.85, "times": times(), "hasS": True,
+            "start": rng.randint(-2, 3), "hasN": True, "nd": rng.random() < 0.5}]
+    if not ops[0]["given"]:
+        ops[0]["times"] = [0]
+    for _ in range(n):
+        op = rng.choice(["set_times", "set_times", "set_start", "set_nd", "replace", "replace"])
+        o = {"op": op, "given": op == "set_times", "times": [0], "hasS": op == "set_start", "start": 0, "hasN": op == "set_nd",
+             "nd": rng.random() < 0.5}
+        if op == "set_times":
+            o["times"] = times()
+        elif op == "set_start":
+            o["start"] = rng.randint(-2, 6)
+        elif op == "replace":
+            o["given"] = rng.random() < 0.8
+            o["times"] = times() if o["given"] else [0]
+            o["hasS"] = rng.random() < 0.5
+            o["start"] = rng.randint(-2, 4) if o["hasS"] else 0
+            o["hasN"] = rng.random() < 0.5
+        ops.append(o)
+    return {"ops": ops, "variant": rng.randint(0, 7)}
+
+
+def readout_object(ctx):
+    """PyxelReadout: the Readout object under sequences of assignments and `replace` (the object the
+    schedules of this property come from; sweeps of the readout times go through `replace`)."""
+    from harness import check, readout
+    res, cases = ctx.model_check("MC_Readout", f"MC_Readout_{ctx.tier}.cfg", export=True, workers=1,
+                                 note="every history construct;op;op over times in 0..MAXTICK (length <= 2), starts -1..MAXTICK-1")
+    for k, c in enumerate(cases):
+        c["variant"] = k
+    traces = check.pmap(readout.run_history, cases, chunksize=200)
+    ctx.cov["replayed_cases"] += len(traces)
+    ctx.sample({"readout_history": cases[7]["ops"], "events": traces[7]["events"]})
+    _validate_ro(ctx, traces, "readout_replay")
+    cases = [random_ro(ctx.rng, ctx.rng.randint(1, 7)) for _ in range(ctx.pick(2500, 40000))]
+    traces = check.pmap(readout.run_history, cases, chunksize=200)
+    ctx.cov["recorded_random"] += len(traces)
+    ctx.notes["readout_object_histories"] = len(traces)
+    _validate_ro(ctx, traces, "readout_random")
+
+
 def replay(ctx, payload):
+    if payload["case"].get("kind") == "readout":
+        from harness import readout
+        tr = readout.run_history(payload["case"]["history"])
+        print(json.dumps(tr["events"]))
+        _validate_ro(ctx, [tr], "replay")
+        return ctx.finish()
     if payload["case"].get("kind") == "hooktrace":
         from harness import hooks
         return hooks.replay(ctx, payload)
